@@ -144,7 +144,8 @@ def retag_only(before, after):
 
 # ------------------------------------------------------------------ wall-clock budget (the check must always terminate)
 import time as _time
-PHASE_BUDGET = {'quick': 150.0, 'thorough': 720.0}       # seconds of generation + oracle work (Coq time not included)
+PHASE_BUDGET = {'quick': 150.0, 'thorough': 720.0}       # seconds of CPU time of THIS process spent on generation + oracle work
+                                                          # (process time, not wall clock: neither coqc nor the load of the machine counts)
 MAX_VIOLATIONS = 40                                       # enough concrete inputs: stop generating
 
 
@@ -164,8 +165,8 @@ class watchdog:
         def fire(signum, frame):
             raise HardStop(self.where)
         try:
-            self.old = signal.signal(signal.SIGALRM, fire)
-            signal.setitimer(signal.ITIMER_REAL, self.seconds)
+            self.old = signal.signal(signal.SIGVTALRM, fire)          # CPU time of this process: a loaded machine does not trip it
+            signal.setitimer(signal.ITIMER_VIRTUAL, self.seconds)
         except ValueError:              # not in the main thread: no watchdog
             self.old = None
         return self
@@ -173,8 +174,8 @@ class watchdog:
     def __exit__(self, et, ev, tb):
         import signal
         if self.old is not None:
-            signal.setitimer(signal.ITIMER_REAL, 0)
-            signal.signal(signal.SIGALRM, self.old)
+            signal.setitimer(signal.ITIMER_VIRTUAL, 0)
+            signal.signal(signal.SIGVTALRM, self.old)
         if et is HardStop:
             if not self.budget.stopped:
                 self.budget.stopped = 'time budget: a single implementation call did not return within the hard limit of %.0f s for %s' % (self.seconds, self.where)
@@ -187,7 +188,7 @@ class watchdog:
 class Budget:
     def __init__(self, ctx):
         self.ctx = ctx
-        self.t0 = _time.time()
+        self.t0 = _time.process_time()
         self.limit = PHASE_BUDGET.get(ctx.tier, 150.0)
         self.stopped = None
 
@@ -197,8 +198,8 @@ class Budget:
             return True
         if len(self.ctx.violations) >= MAX_VIOLATIONS:
             self.stopped = 'enough violations (%d) collected, stopped in %s' % (len(self.ctx.violations), where)
-        elif _time.time() - self.t0 > self.limit:
-            self.stopped = 'time budget of %.0f s used up in %s' % (self.limit, where)
+        elif _time.process_time() - self.t0 > self.limit:
+            self.stopped = 'time budget of %.0f s (CPU) used up in %s' % (self.limit, where)
         if self.stopped:
             self.ctx.log('generation stopped: ' + self.stopped)
             self.ctx.cov['generation_stopped'] = self.stopped
@@ -1268,7 +1269,7 @@ def size_probes(ctx, oracle):
     from kmip.core import primitives, objects, attributes
     from kmip.core.messages import messages, contents
     quick = ctx.tier == 'quick'
-    sizes = SIZES
+    sizes = [x for x in SIZES if x not in (65535, 65537)] if quick else SIZES      # quick: one value beyond 2^16, thorough: all three
     T = enums.Tags.NAME_VALUE
     n = 0
     for size in sizes:
@@ -1553,12 +1554,25 @@ def replay(ctx, payload):
     cls = next((c for _, n, c, _ in all_struct_classes() if n == cname), None)
     if (payload.get('signature') or {}).get('check') == 'reference-corpus-changed' and (cls is not None or cname == 'enums.attribute_name_tag_table'):
         pass
+    elif 'size' in (payload.get('signature') or {}) and cname in ('TextString', 'ByteString', 'BigInteger'):
+        pass
     elif cls is None or not hexes or v not in sg.VERSIONS:
         print('replay: nothing replayable in this file (class %r, version %r)' % (cname, v))
         return 2
     oracle = Oracle(ctx)
     oracle.take_baseline()          # two-step findings: what fresh default instances encode to BEFORE the recorded input is decoded
     rc = 0
+    if 'size' in (payload.get('signature') or {}) and cname in ('TextString', 'ByteString', 'BigInteger'):
+        # a size probe: build the primitive of the recorded size again and round-trip it
+        global SIZES
+        SIZES = [int(payload['signature']['size'])]
+        ctx.tier = 'thorough'
+        size_probes(ctx, oracle)
+        hit = [x for x in ctx.violations if x['signature'].get('class') == cname]
+        for x in hit:
+            print('replay: VIOLATION reproduced:', x['what'])
+        print('replay: %s' % ('the violation reproduces' if hit else 'the violation does not reproduce on this tree'))
+        return 1 if hit else 0
     if (payload.get('signature') or {}).get('check') == 'reference-corpus-changed':
         # step 1: the reference value in a fresh process; step 2: the recorded odd input; step 3: the reference value again
         odd = (detail.get('odd_input') or {}).get('attribute_name')
